@@ -114,6 +114,20 @@ func (c *Case) WithNear(v NearVar) *Case {
 	return d
 }
 
+// unit: the largest size or spacing of the case (see tolUnit)
+func (c *Case) unit() float64 {
+	u := math.Max(c.NodeSpacing(), c.LayerSpacing())
+	if c.SzMode == SzFixed || c.SzMode == SzFixedPerNode {
+		u = math.Max(u, math.Max(c.Fixed.W, c.Fixed.H))
+	}
+	if c.SzMode == SzPerNode || c.SzMode == SzFixedPerNode {
+		for _, v := range c.Sizes {
+			u = math.Max(u, math.Max(v.W, v.H))
+		}
+	}
+	return u
+}
+
 func (c *Case) JSON() string {
 	b, err := json.Marshal(c)
 	if err != nil {
@@ -394,6 +408,7 @@ func (c *Case) RunOpts(src graph.Source, opts []autog.Option) (l graph.Layout, p
 		phase1.VerifGreedySeed.Store(nonZeroSeed(c.GreedySeed))
 		defer phase1.VerifGreedySeed.Store(0)
 	}
+	setTolUnit(c.unit())
 	l = autog.Layout(src, opts...)
 	return l, nil
 }
@@ -558,7 +573,7 @@ func CountSelfLoops(es [][2]string) int {
 // ---------------------------------------------------------------------------------------------------------
 // Output helpers
 
-func near(a, b float64) bool { return math.Abs(a-b) <= 1e-9*(1+math.Abs(a)+math.Abs(b)) }
+func near(a, b float64) bool { return math.Abs(a-b) <= 1e-9*(tolUnit()+math.Abs(a)+math.Abs(b)) }
 
 func finite(x float64) bool { return !math.IsNaN(x) && !math.IsInf(x, 0) }
 
